@@ -77,11 +77,24 @@ void SQuIDS_Evolve(struct SQuIDS* self, double dt){
 //@SUB /system\.get\s*\(\s*\)/system/ min=1
 }
 
+/* ini(): allocation statements are logged stubs handing out the harness's arrays; `v = SU_vector(dim,ptr)` (move assignment from an externally backed temporary, contract C08) */
+enum { ID_state=0, ID_estate=1, ID_dstate=2, K_NEWSYS=60, K_XRESIZE, K_NEWSTATES, K_NEWRHOS, K_VIEW };
+static double* op_new_system(unsigned n);
+static void op_x_resize(struct SQuIDS* self, unsigned n){ LOG(K_XRESIZE,0,n,0.0,0,0,0,0,0.0); }
+static struct SU_state* op_new_states(int which, unsigned n);
+static struct SU_vector* op_new_rhos(int which, unsigned ei, unsigned n);
+static void op_assign_ext(struct SU_vector* v, unsigned dim, double* storage){ v->dim=dim; v->size=dim*dim; v->components=storage; v->isinit=false; v->isinit_d=true; LOG(K_VIEW,0,dim,0.0,v,storage,0,0,0.0); }
+void SQuIDS_ini(struct SQuIDS* self, unsigned int n, unsigned int nsu, unsigned int nrh, unsigned int nsc, double ti){
+//@BODY file=src/SQuIDS.cpp sig=/void\s+SQuIDS::ini\s*\(/ rules=common,squids_ini,squids_members
+}
 /* ---- harnesses ----------------------------------------------------------------------------------------------------------------- */
 struct SU_vector g_rho_s[NXB][NRB], g_rho_e[NXB][NRB], g_rho_d[NXB][NRB];
 struct SU_state g_state[NXB], g_estate[NXB], g_dstate[NXB];
 #define NBUF (NXB*(NRB*36+NSB)+1)
 double g_system[NBUF], g_buf_in[NBUF], g_buf_out[NBUF];
+static double* op_new_system(unsigned n){ LOG(K_NEWSYS,0,n,0.0,0,0,0,0,0.0); return g_system; }
+static struct SU_state* op_new_states(int which, unsigned n){ LOG(K_NEWSTATES,0,n,0.0,0,0,0,which,0.0); return which==ID_state?g_state:(which==ID_estate?g_estate:g_dstate); }
+static struct SU_vector* op_new_rhos(int which, unsigned ei, unsigned n){ LOG(K_NEWRHOS,ei,n,0.0,0,0,0,which,0.0); unsigned e=ei<NXB?ei:0; return which==ID_state?g_rho_s[e]:(which==ID_estate?g_rho_e[e]:g_rho_d[e]); }
 static void mk_solver(struct SQuIDS* S){
 #ifdef EXACT_SIZES
   S->nx=NXB; S->nrhos=NRB; S->nscalars=NSB; S->nsun=nondet_unsigned();      /* one job per (nx,nrhos,nscalars): concrete trip counts keep the ghost log index concrete */
@@ -108,6 +121,26 @@ static void mk_solver(struct SQuIDS* S){
 }
 #define EXPECT(k,KIND,EI,IDX,TT,A,B,C,W) do{ __CPROVER_assert(k<nlog && lg[k].kind==(KIND) && lg[k].ei==(EI) && lg[k].idx==(IDX) && SQ_SAME(lg[k].t,(TT)) && lg[k].a==(const void*)(A) && lg[k].b==(const void*)(B) && lg[k].c==(const void*)(C) && lg[k].w==(W), "C04: event #k of the right-hand side assembly is the documented one"); k++; }while(0)
 
+/* C10: (re-)initialisation starts a fresh clock and a fresh state layout, whatever the object held before */
+void h_ini(void){
+  struct SQuIDS S; mk_solver(&S);                     /* arbitrary previous contents, including stale cached buffer pointers */
+  unsigned n=NXB, nrh=NRB, nsc=NSB, nsu=nondet_unsigned(); __CPROVER_assume(2<=nsu && nsu<=6); double ti=nondet_double();
+  SQuIDS_ini(&S,n,nsu,nrh,nsc,ti);
+  __CPROVER_assert(SQ_SAME(S.t,ti) && SQ_SAME(S.t_ini,ti), "C10: re-initialisation starts a fresh clock: t == t_ini == the given initial time");
+  __CPROVER_assert(S.last_estate_ptr==NULL && S.last_dstate_ptr==NULL, "C10: the cached last-used buffers are forgotten (the next right-hand side re-aliases every view)");
+  __CPROVER_assert(S.is_init && S.nx==n && S.nsun==nsu && S.nrhos==nrh && S.nscalars==nsc && S.size_rho==nsu*nsu && S.size_state==nsu*nsu*nrh+nsc && S.sys.dimension==(size_t)(n*S.size_state),
+                   "C10: sizes, and the dimension GSL integrates over, are those of the new problem");
+  int nsys=0, nst=0, nrho=0; for(int k=0;k<nlog && k<48;k++){ if(lg[k].kind==K_NEWSYS){ nsys++; __CPROVER_assert(lg[k].idx==n*S.size_state,"C10: system buffer holds nx*size_state numbers"); }
+    if(lg[k].kind==K_NEWSTATES){ nst++; __CPROVER_assert(lg[k].idx==n,"C10: one node record per x value"); } if(lg[k].kind==K_NEWRHOS){ nrho++; __CPROVER_assert(lg[k].idx==nrh,"C10: nrhos matrices per node"); } }
+  __CPROVER_assert(nlog<=48, "ghost log of ini scanned completely");
+  __CPROVER_assert(nsys==1 && nst==3 && nrho==3*(int)n && S.system==g_system && S.state==g_state && S.estate==g_estate && S.dstate==g_dstate, "C10: fresh storage for the state, the in-step view and the derivative");
+  for(unsigned e=0;e<NXB;e++){ for(unsigned i=0;i<NRB;i++){
+      __CPROVER_assert(g_rho_s[e][i].components==g_system+(e*S.size_state+i*S.size_rho) && g_rho_s[e][i].dim==nsu && g_rho_s[e][i].isinit_d && !g_rho_s[e][i].isinit, "C10: stored matrices view the fresh system buffer at ei*size_state+i*size_rho");
+      __CPROVER_assert(g_rho_e[e][i].components==g_rho_s[e][i].components && g_rho_e[e][i].dim==nsu, "C10: after initialisation the in-step view coincides with the stored state");
+      __CPROVER_assert(g_rho_d[e][i].components==NULL && g_rho_d[e][i].dim==nsu, "C10: derivative views have no storage until the first right-hand side"); }
+    if(nsc>0) __CPROVER_assert(g_state[e].scalar==g_system+(e*S.size_state+nrh*S.size_rho) && g_estate[e].scalar==g_state[e].scalar, "C10: scalars follow the matrices of their node; in-step view coincides"); }
+  __CPROVER_assert(0,"REACH end of harness");
+}
 /* C04: Derive assembles d(rho)/dt = [Coh] i[rho,HI] - [NonCoh] {GammaRho,rho} + [Other] InteractionsRho and d(s)/dt = -[GS] GammaScalar*s + [OS] InteractionsScalar,
  * independently for every node, matrix and scalar, each hook called with (node index, matrix/scalar index, the stepper's time), disabled terms not evaluated at all */
 void h_Derive(void){
